@@ -67,6 +67,12 @@ type chainErr struct{}
 
 func (chainErr) Error() string { return "chain error value" }
 
+// chainStatusErr: what HTTP / API client libraries return — an error with a StatusCode() of the UPSTREAM answer
+type chainStatusErr struct{ code int }
+
+func (e chainStatusErr) Error() string   { return fmt.Sprintf("upstream answered %d", e.code) }
+func (e chainStatusErr) StatusCode() int { return e.code }
+
 type chainPtrErr struct{ msg string }
 
 func (e *chainPtrErr) Error() string { return e.msg }
@@ -234,8 +240,25 @@ func (h *chainHandler) interpret(i int, cur **chainRun, c flamego.Context) {
 				if i%2 == 1 {
 					panicFromUnreadableSource() // same value, raised from a frame whose source file does not exist
 				}
+				if (i+a.n)%3 == 2 {
+					// a panic raised INSIDE the framework while it is busy with the request's injector: MapTo with a pointer
+					// to a non-interface type (inject.InterfaceOf refuses it) — whatever the injector was holding at that
+					// moment must not stand in Recovery's way
+					func() {
+						defer func() {
+							if r := recover(); r != nil {
+								panic("a string value") // re-raised under the value the classification knows
+							}
+						}()
+						c.MapTo(&chainMapped{v: i}, (*chainMapped)(nil))
+					}()
+				}
 				panic("a string value")
 			case 'E':
+				if (i+a.n)%4 == 3 {
+					// an error value of a foreign library that happens to carry an HTTP status of its own
+					panic(chainStatusErr{code: 404})
+				}
 				switch i % 3 {
 				case 1:
 					// the classic typed-nil error: non-nil as an interface, its Error method dereferences nil
@@ -362,7 +385,7 @@ func classifyPanic(r interface{}) string {
 		return "otherstring"
 	case chainStruct:
 		return "struct"
-	case chainErr, *chainPtrErr, chainBadStringer:
+	case chainErr, *chainPtrErr, chainBadStringer, chainStatusErr:
 		return "err"
 	case runtime.Error:
 		return "rt"
@@ -634,7 +657,7 @@ var chainPoolC15 = []string{
 	"p c,pT -", "p - W404:0", "u", "p pA -", "p j,pE -",
 }
 
-var chainCodes = []int{200, 201, 204, 302, 404, 500}
+var chainCodes = []int{200, 201, 204, 302, 404, 500, 101, 103, 100}
 
 func randChainProg(r *rand.Rand, hooks bool, panicky bool) string {
 	n := r.Intn(6)
